@@ -69,6 +69,22 @@ func (c04) Gen(rt *rapid.T, thorough bool) any {
 		}
 		return s
 	}
+	if rapid.IntRange(0, 7).Draw(rt, "slow_sink4") == 0 {
+		// a sink that takes simulated time per item: whatever Stop has to wait for, once it has
+		// returned every accepted item is delivered or counted
+		s.SleepMs = rapid.SampledFrom([]int{120, 400}).Draw(rt, "sleep_ms4")
+		s.Gate, s.Slow, s.Knobs.AutoAdvS, s.Knobs.Starve, s.Clock = 0, 0, 900, nil, nil
+		s.Producers = nil
+		np := rapid.IntRange(1, 3).Draw(rt, "slow_producers")
+		for p := 0; p < np; p++ {
+			var ops []AOp
+			for i := 0; i < 90/np+5; i++ {
+				ops = append(ops, AOp{Lvl: "ERROR", Raw: (p+i)%6 == 0, Size: 2})
+			}
+			s.Producers = append(s.Producers, ops)
+		}
+		return s
+	}
 	if rapid.IntRange(0, 4).Draw(rt, "contention") == 0 {
 		// contention preset: many producers hammering a full buffer whose worker is held, with a
 		// scheduling choice at every step - the overflow paths race against each other
